@@ -714,6 +714,12 @@ func (w *World) doRequest(o *Obs, st *Step, method, path, rawq, body, ctype stri
 	}
 
 	u := &url.URL{Path: path, RawQuery: rawq}
+	if rp := st.str("rawpath"); rp != "" && st.Kind == "probe" {
+		// the spelling the client used (an encoded delimiter inside a segment)
+		if dec, err := url.PathUnescape(rp); err == nil && dec == path {
+			u.RawPath = rp
+		}
+	}
 	ctx, cancel := context.WithCancel(context.Background())
 	req := &http.Request{
 		Method: method, URL: u, Proto: "HTTP/1.1", ProtoMajor: 1, ProtoMinor: 1,
